@@ -86,7 +86,7 @@ func genRelabels(t *rapid.T, label string, metric bool, max int) []Relabel {
 			if rapid.Bool().Draw(t, l+"-two") {
 				r.Source = append(r.Source, rapid.SampledFrom(src).Draw(t, l+"-s1"))
 			}
-			r.Regex = rapid.SampledFrom([]string{"", "(.*)", "([^:]+):.*", "a|b", "(.+);(.+)", longRegex}).Draw(t, l+"-re")
+			r.Regex = rapid.SampledFrom([]string{"", "(.*)", "([^:]+):.*", "a|b", "(.+);(.+)", "rack [0-9]+ row (.+)", longRegex}).Draw(t, l+"-re")
 			r.Target = rapid.SampledFrom([]string{"instance", "dc", "tmp_label", "__tmp_a"}).Draw(t, l+"-target")
 			if rapid.Bool().Draw(t, l+"-hasRep") {
 				r.Replacement = strp(rapid.SampledFrom([]string{"$1", "${1}:9100", "fixed", "a: b", "", longValue + " $1"}).Draw(t, l+"-rep"))
@@ -116,7 +116,15 @@ func genRelabels(t *rapid.T, label string, metric bool, max int) []Relabel {
 }
 
 func genSD(t *rapid.T, label string) SD {
-	switch pick(t, label+"-sdKind", 40, 15, 15, 15, 15) {
+	sdSecret := func() string {
+		if rapid.Bool().Draw(t, label+"-sdSecretOn") {
+			return rapid.SampledFrom([]string{"SD-S3CR3T-1", "sd secret: with #signs", "sd-tok-0123456789abcdef"}).Draw(t, label+"-sdSecret")
+		}
+		return ""
+	}
+	switch pick(t, label+"-sdKind", 40, 12, 12, 14, 12, 10) {
+	case 5:
+		return SD{Kind: "consul", Server: rapid.SampledFrom([]string{"consul.internal:8500", "localhost:8500"}).Draw(t, label+"-consul"), Secret: sdSecret()}
 	case 1:
 		return SD{Kind: "file", Files: []string{rapid.SampledFrom([]string{"/etc/sd/*.json", "targets/a.yml", "sd/b.yaml"}).Draw(t, label+"-file")}, Refresh: rapid.SampledFrom([]string{"", "1m", "5m"}).Draw(t, label+"-refresh")}
 	case 2:
@@ -126,9 +134,10 @@ func genSD(t *rapid.T, label string) SD {
 		if rapid.Bool().Draw(t, label+"-ns") {
 			sd.NS = []string{rapid.SampledFrom([]string{"default", "monitoring"}).Draw(t, label+"-nsv")}
 		}
+		sd.Secret = sdSecret()
 		return sd
 	case 4:
-		return SD{Kind: "http", URL: rapid.SampledFrom([]string{"http://sd.example/targets", "https://sd.example/v2?x=1"}).Draw(t, label+"-url"), Refresh: rapid.SampledFrom([]string{"", "30s"}).Draw(t, label+"-refresh")}
+		return SD{Kind: "http", URL: rapid.SampledFrom([]string{"http://sd.example/targets", "https://sd.example/v2?x=1"}).Draw(t, label+"-url"), Refresh: rapid.SampledFrom([]string{"", "30s"}).Draw(t, label+"-refresh"), Secret: sdSecret()}
 	}
 	sd := SD{Kind: "static"}
 	n := rapid.IntRange(1, 3).Draw(t, label+"-nTargets")
